@@ -193,6 +193,11 @@ func editResync(r *Run) {
 		akind = ckCRCTwins
 		r.Probe("slices-sharing-crc32")
 	}
+	if r.SweepCase < 0 && akind == ckRandom && c.N1 >= 2*c.S && t.Bool(1, 5, "few-duplicates") {
+		// some slices of A repeat an earlier slice or are zero-filled
+		akind = ckFewDuplicates
+		r.Probe("repeated-slices")
+	}
 	a := expandContent(akind, seed, c.N1, c.S)
 	b := expandContent(ckRandom, seed^0x5555, c.S+1+int(seed%3), c.S)
 	if c.Rename == 3 {
